@@ -27,7 +27,24 @@ MAX_FAIL_BUCKETS_PER_UNIT = 400
 
 
 def canon(obj) -> str:
-    return json.dumps(obj, sort_keys=True, separators=(",", ":"), default=_default)
+    return json.dumps(_finite(obj), sort_keys=True, separators=(",", ":"), default=_default)
+
+
+def _finite(o):
+    """non-finite floats are not JSON: write them as the strings "nan" / "inf" / "-inf" (evidence and replay files must stay valid JSON)."""
+    if type(o).__module__ == "numpy" and getattr(o, "shape", None) == () and getattr(o, "dtype", None) is not None and o.dtype.kind == "f":
+        o = float(o)
+    if isinstance(o, float):
+        if o != o:
+            return "nan"
+        if o in (float("inf"), float("-inf")):
+            return "inf" if o > 0 else "-inf"
+        return o
+    if isinstance(o, dict):
+        return {k: _finite(v) for k, v in o.items()}
+    if isinstance(o, (list, tuple)):
+        return [_finite(v) for v in o]
+    return o
 
 
 def _default(o):
